@@ -53,7 +53,8 @@ class EngineBase:
         self.no_contract_for = set()      # quals whose body is executed even if a contract exists
         self.spec_mode = 0                # >0 while evaluating specification expressions
         self.spec_env = {}                # names available to specifications (spec functions)
-        self.loop_specs = {}              # (qual, ordinal) -> loop spec
+        self.loop_specs = {}              # (qual, 'while#k' | 'for#k') -> loop spec
+        self.default_spec_module = None
         self.cur_qual: List[str] = []
         self.opaque_handlers = {}         # typ -> handler(engine, st, recv, name, args, kwargs)
         self.external_handlers = {}       # dotted external name -> handler(engine, st, args, kwargs)
